@@ -210,15 +210,16 @@ Proof.
   - destruct (vsig s x); [|exfalso; apply Hy; reflexivity]. unfold step_set_type in Hy. destruct (kind s x) as [old| |] eqn:Ek; try (exfalso; apply Hy; reflexivity).
     destruct (Z.leb_spec size 0); [exfalso; apply Hy; reflexivity|].
     assert (Eold : sz s x = old) by (unfold sz; rewrite Ek; reflexivity).
+    rewrite Eold in Hop.
     pose proof (sig_modify_post0 s x (size - old) HA ltac:(lia) Hop) as P.
     destruct (sig_modify_size s x (size - old)) as [s1 r]. cbn [fst snd] in P. destruct P as [p [-> [_ [_ Pfr]]]].
-    apply Pfr. destruct r; exact Hy.
+    destruct (Pfr y ltac:(destruct r; exact Hy)) as (L & A & B & _). exists L. split; assumption.
   - destruct (vsig s x && venum s e); [|exfalso; apply Hy; reflexivity]. unfold step_set_enum in Hy. destruct (kind s x) as [|old|] eqn:Ek; try (exfalso; apply Hy; reflexivity).
     assert (Hnew : 1 <= sz s x + (esize s e - sz s x)).
     { unfold esize. pose proof (esize_of_pos (emin s e) (emax s e) (a_emax s HA e)). lia. }
     pose proof (sig_modify_post0 s x (esize s e - sz s x) HA Hnew Hop) as P.
     destruct (sig_modify_size s x (esize s e - sz s x)) as [s1 r]. cbn [fst snd] in P. destruct P as [p [-> [_ [_ Pfr]]]].
-    apply Pfr. destruct r; exact Hy.
+    destruct (Pfr y ltac:(destruct r; exact Hy)) as (L & A & B & _). exists L. split; assumption.
   - exact I.
   - apply Hy. destruct (venum s e); [|reflexivity]. unfold step_remove_value. destruct (negb (memb v (evals s e))); [reflexivity|]. cbn [fst].
     destruct (vidx s v =? emax s e); reflexivity.
